@@ -322,7 +322,7 @@ pub fn life_strategy_n(menu: gen::ConfigMenu, max_steps: usize) -> BoxedStrategy
         .boxed()
 }
 
-fn all_transitions() -> Vec<OrientCase> {
+pub fn all_transitions() -> Vec<OrientCase> {
     let mut out = Vec::new();
     for a in Orient::ALL {
         for b in Orient::ALL {
